@@ -51,7 +51,7 @@ const (
 // -- provider (list / range) ------------------------------------------------
 
 const (
-	queryListKeys      = "SELECT `key`, `flags` FROM `key_trackers`"
+	queryListKeys      = "SELECT t.`key`, t.`flags`, COALESCE(length(s.`value`), 0) FROM `key_trackers` t LEFT JOIN `simple_entries` s ON s.`key` = t.`key`"
 	queryRangeKeysNorm = "SELECT `key` FROM `key_trackers` WHERE (`hash` > ? AND `hash` < ?) OR `hash` = ? ORDER BY `hash` ASC"
 	queryRangeKeysWrap = "SELECT `key` FROM `key_trackers` WHERE `hash` > ? OR `hash` < ? OR `hash` = ? ORDER BY `hash` ASC"
 )
